@@ -48,6 +48,23 @@ func main() {
 				fmt.Printf("    %s (floor %d)\n", r.ID, r.Floor)
 			}
 		}
+	case "rules":
+		// markdown listing of what is implemented (DESIGN.md Appendix A is generated from this)
+		for _, id := range rules.IDs() {
+			p := rules.Get(id)
+			fmt.Printf("### %s — %s\n\n", id, p.Title)
+			fmt.Printf("Decided: %s\n\n", p.Explanation)
+			if len(p.NotDecided) > 0 {
+				fmt.Printf("Not decided: %s.\n\n", strings.Join(p.NotDecided, "; "))
+			}
+			if len(p.Assumptions) > 0 {
+				fmt.Printf("Assumes: %s.\n\n", strings.Join(p.Assumptions, "; "))
+			}
+			for _, r := range p.Rules {
+				fmt.Printf("* **%s** (floor %d). %s\n", r.ID, r.Floor, r.Doc)
+			}
+			fmt.Println()
+		}
 	case "dump":
 		os.Exit(cmdDump(os.Args[2:]))
 	case "variant":
